@@ -54,8 +54,34 @@ def lossy(a, b):
     return la < lb or ha > hb
 
 
+def _cast_keys(F, reach):
+    keys = set()
+    seen = {}
+    for p in sorted(reach):
+        f = F.built.get(p, F.fns[p])
+        if is_derive(f):
+            continue
+        for bi, si, s in mir.stmts(f):
+            rv = s["rv"]
+            if rv["k"] != "cast" or rv["ck"] != "IntToInt" or site_in_derive(s["exp"]) or not lossy(rv["from"], rv["to"]):
+                continue
+            base = "%s|cast|%s->%s" % (p, rv["from"], rv["to"])
+            k = seen.get(base, 0) + 1
+            seen[base] = k
+            keys.add(base if k == 1 else "%s|#%d" % (base, k))
+    return keys
+
+
 def casts(F, res, reach):
     rows = {r["key"]: r["reason"] for r in table("e4_rows")["casts"]}
+    # a reviewed row whose own site no longer exists (the function was renamed / inlined into its caller) still speaks for a
+    # cast of the same types in the same crate
+    present = _cast_keys(F, reach)
+    moved = {}
+    for k, reason in rows.items():
+        if k not in present:
+            m = re.search(r"\btx3[a-z_]*", k)
+            moved.setdefault((m.group(0) if m else "", k.split("|", 1)[1].split("|#")[0]), reason)
     n = 0
     seen = {}
     for p in sorted(reach):
@@ -88,8 +114,22 @@ def casts(F, res, reach):
                                                        or o.callee.endswith("::len")) or (o.kind == "arg" and f["def_kind"] == "Closure") for o in orig):
                     if any(o.kind == "call" for o in orig) or _closure_arg_is_index(F, f, du, rv["op"]):
                         by = "D-INDEX: position / length of an in-memory collection (bounded by memory, far below the target type's range)"
+            if by is None and rv["from"] == "usize":
+                # the index comes out of a helper of the crate (`fn sorted_position(..) -> Option<usize>`): look through it
+                from . import c12
+                fi = c12._inlined_for_discharge(F, f)
+                if fi is not None and fi.get("inlined"):
+                    orig = mir.provenance(fi, mir.DefUse(fi), rv["op"], transparent_extra=("std::option::Option::<T>::unwrap",))
+                    if orig and all(o.kind == "call" and (o.callee.endswith("::position") or o.callee.endswith("Iterator::position") or "enumerate" in o.callee
+                                                          or o.callee.endswith("::len")) for o in orig):
+                        by = "D-INDEX: position / length of an in-memory collection, computed in an inlined helper"
             if by is None and key in rows:
                 by = "D-TABLE: " + rows[key]
+            if by is None:
+                m = re.search(r"\btx3[a-z_]*", p)
+                mv = moved.get((m.group(0) if m else "", "cast|%s->%s" % (rv["from"], rv["to"])))
+                if mv:
+                    by = "D-TABLE (row of a site that moved here): " + mv
             if by:
                 res.add([ok("CAST", key, w, by)])
             else:
@@ -105,7 +145,12 @@ def _closure_arg_is_index(F, f, du, op):
     if not orig or not all(o.kind == "arg" and o.local >= 2 for o in orig):
         return False
     good = False
+    from . import c12
     for owner, rv in closure_creations(F, f["path"]):
+        oi = c12._inlined_for_discharge(F, owner)
+        if oi is not None and oi.get("inlined"):
+            owner = oi      # statements / terminators of the original blocks are shared objects or equal copies
+            rv = next((st["rv"] for _, _, st in mir.stmts(owner) if st["rv"]["k"] == "agg" and st["rv"].get("closure") == f["path"]), rv)
         duo = mir.DefUse(owner)
         # the local the closure value is assigned to, and the call that receives it
         clocals = {st["lhs"]["l"] for _, _, st in mir.stmts(owner) if st["rv"] is rv}
@@ -190,14 +235,22 @@ def floats(F, res, reach):
 
 
 def drop_rule(F, res):
-    f = F.fn("tx3_cardano::compile::asset_math::fold_assets")
+    # the function that merges two amount maps with the checked addition - found by role (it calls SafeAdd::try_add and is
+    # not an impl of it), whatever its name
+    SAFE = [t_ for t_ in {g.get("impl_trait") for g in F.fns.values()} if t_ and t_.endswith("::SafeAdd")]
+    if not SAFE:
+        raise BrokenCheck("no SafeAdd trait in tx3_cardano")
+    cands = [g for g in F.fns.values() if g["crate"] == "tx3_cardano" and g.get("impl_trait") not in SAFE and not is_derive(g)
+             and any(t.get("trait") in SAFE and t.get("method") == "try_add" for _, t in mir.calls(g))]
+    if not cands:
+        raise BrokenCheck("no function calls SafeAdd::try_add any more")
+    f = sorted(cands, key=lambda g: g["path"])[0]
     cfg = mir.CFG(f)
     w = where(f)
-    key = f["path"] + "|None of try_add"
+    # the key keeps the historical name of the role so that the listed finding stays the same finding under a rename
+    key = "tx3_cardano::compile::asset_math::fold_assets|None of try_add"
     from ..e8_state import option_switch
-    ta = [(bi, t) for bi, t in mir.calls(f) if t.get("trait") == "tx3_cardano::compile::asset_math::SafeAdd" and t.get("method") == "try_add"]
-    if not ta:
-        raise BrokenCheck("fold_assets no longer calls SafeAdd::try_add")
+    ta = [(bi, t) for bi, t in mir.calls(f) if t.get("trait") in SAFE and t.get("method") == "try_add"]
     rem = [bi for bi, t in mir.calls(f) if (t.get("callee") or "").endswith("OccupiedEntry::<'a, K, V, A>::remove")]
     bad = False
     for bi, t in ta:
@@ -207,7 +260,7 @@ def drop_rule(F, res):
     # do the SafeAdd impls distinguish overflow from a zero sum?
     conflated = []
     for g in F.fns.values():
-        if g.get("impl_trait") == "tx3_cardano::compile::asset_math::SafeAdd" and g.get("name") == "try_add":
+        if g.get("impl_trait") in SAFE and g.get("name") == "try_add":
             has_checked = any((t.get("callee") or "").endswith("::checked_add") for _, t in mir.calls(g))
             has_ok = any((t.get("callee") or "").endswith("Result::<T, E>::ok") for _, t in mir.calls(g))
             if has_checked and has_ok:
